@@ -54,6 +54,25 @@ struct Case {
     entropy: u64,
     dirperm: u64,
     fault: Option<FaultSpec>,
+    /// 0: file names as in the set; 1: start file has two dots (`name.v2.wsdl`); 2: start file name contains a blank
+    name_style: u64,
+    /// 0: regular files; 1: the sibling files are symbolic links into another directory; 2: the input directory is
+    /// reached through a symbolic link
+    link_style: u64,
+}
+
+const NAME_STYLES: [&str; 3] = ["as-is", "two-dots", "blank-in-name"];
+const LINK_STYLES: [&str; 3] = ["regular files", "siblings are symlinks", "directory reached through a symlink"];
+
+fn styled_start(start: &str, name_style: u64) -> String {
+    let p = Path::new(start);
+    let stem = p.file_stem().map(|s| s.to_string_lossy().to_string()).unwrap_or_default();
+    let ext = p.extension().map(|s| s.to_string_lossy().to_string()).unwrap_or_default();
+    match name_style {
+        1 => format!("{stem}.v2.{ext}"),
+        2 => format!("{stem} copy-1.{ext}"),
+        _ => start.to_string(),
+    }
 }
 
 fn decode_case(ch: &mut Chooser, nsets: usize) -> Case {
@@ -74,7 +93,9 @@ fn decode_case(ch: &mut Chooser, nsets: usize) -> Case {
     } else {
         None
     };
-    Case { input, spelling, output, pre, extra, longflags, entropy, dirperm, fault }
+    let name_style = ch.choose("name_style", 3);
+    let link_style = ch.choose("link_style", 3);
+    Case { input, spelling, output, pre, extra, longflags, entropy, dirperm, fault, name_style, link_style }
 }
 
 fn encode_case(c: &Case) -> Vec<u64> {
@@ -84,7 +105,10 @@ fn encode_case(c: &Case) -> Vec<u64> {
         let ti = ts.iter().position(|x| x.0 == f.sym && x.1 == f.cls).unwrap_or(0);
         let ai = ts[ti].3.iter().position(|a| *a == f.action).unwrap_or(0);
         t.extend([1, ti as u64, f.idx, ai as u64]);
+    } else {
+        t.push(0);
     }
+    t.extend([c.name_style, c.link_style]);
     t
 }
 
@@ -121,9 +145,23 @@ fn lib_run(dir: &Path, start: &str, entropy: u64) -> Result<Vec<u8>, String> {
 }
 
 fn materialise(dir: &Path, set: &InputSet, extra: u64) {
+    materialise_styled(dir, set, extra, 0, 0);
+}
+
+fn materialise_styled(dir: &Path, set: &InputSet, extra: u64, name_style: u64, link_style: u64) {
     let _ = std::fs::create_dir_all(dir);
+    let store = dir.parent().map(|p| p.join("store"));
     for (n, b) in &set.files {
-        let _ = std::fs::write(dir.join(n), b);
+        let name = if n == &set.start { styled_start(n, name_style) } else { n.clone() };
+        if link_style == 1 && n != &set.start {
+            if let Some(st) = &store {
+                let _ = std::fs::create_dir_all(st);
+                let _ = std::fs::write(st.join(&name), b);
+                let _ = std::os::unix::fs::symlink(st.join(&name), dir.join(&name));
+                continue;
+            }
+        }
+        let _ = std::fs::write(dir.join(name), b);
     }
     if let Some((n, b)) = extra_sibling(extra) {
         let _ = std::fs::write(dir.join(n), b);
@@ -132,6 +170,8 @@ fn materialise(dir: &Path, set: &InputSet, extra: u64) {
 
 static EXPECT_CACHE: Mutex<Option<HashMap<(usize, u64), Expected>>> = Mutex::new(None);
 
+/// The reference is computed from regular files with the set's own names: the statement says the result depends on
+/// the file contents only, so renamed or symlinked files must give the same bytes.
 fn expected_for(sets: &[InputSet], input: usize, extra: u64) -> Expected {
     if let Some(e) = EXPECT_CACHE.lock().unwrap().get_or_insert_with(HashMap::new).get(&(input, extra)) {
         return e.clone();
@@ -194,16 +234,23 @@ fn run_once(sets: &[InputSet], c: &Case, spelling: u64, expected: &Expected) -> 
     let top = sc.path.clone();
     let w = top.join("w");
     let outdir = top.join("outdir");
-    materialise(&w, set, c.extra);
+    materialise_styled(&w, set, c.extra, c.name_style, c.link_style);
     let _ = std::fs::create_dir_all(&outdir);
-    let start = &set.start;
+    // the directory as the tool is told about it: `w`, or the symbolic link `wl -> w`
+    let (w, wname) = if c.link_style == 2 {
+        let _ = std::os::unix::fs::symlink("w", top.join("wl"));
+        (top.join("wl"), "wl")
+    } else {
+        (w, "w")
+    };
+    let start = &styled_start(&set.start, c.name_style);
     let (cwd, spelled): (PathBuf, String) = match spelling {
         0 => (top.clone(), w.join(start).to_string_lossy().to_string()),
-        1 => (top.clone(), format!("w/{start}")),
+        1 => (top.clone(), format!("{wname}/{start}")),
         2 => (w.clone(), format!("./{start}")),
         3 => (w.clone(), start.clone()),
-        4 => (w.clone(), format!("../w/{start}")),
-        _ => (top.clone(), format!("w//{start}")),
+        4 => (w.clone(), format!("../{wname}/{start}")),
+        _ => (top.clone(), format!("{wname}//{start}")),
     };
     let stem_rs = Path::new(start).with_extension("rs").to_string_lossy().to_string();
     let (out_abs, out_arg): (PathBuf, Option<String>) = match c.output {
@@ -418,7 +465,7 @@ fn case_json(sets: &[InputSet], c: &Case) -> Value {
         "input_set": sets[c.input].name, "stage": sets[c.input].stage, "start_file": sets[c.input].start,
         "files": sets[c.input].files.iter().map(|(n, b)| json!({"name": n, "bytes": b.len(), "hash": format!("{:016x}", simkernel::hash_bytes(b))})).collect::<Vec<_>>(),
         "spelling": SPELLINGS[c.spelling as usize], "output": OUTPUTS[c.output as usize], "preexisting_output": PRE[c.pre as usize],
-        "extra_sibling": extra_sibling(c.extra).map(|e| e.0), "long_flags": c.longflags,
+        "extra_sibling": extra_sibling(c.extra).map(|e| e.0), "long_flags": c.longflags, "start_file_name": styled_start(&sets[c.input].start, c.name_style), "name_style": NAME_STYLES[c.name_style as usize], "link_style": LINK_STYLES[c.link_style as usize],
         "entropy": format!("{:x}", c.entropy), "dirperm": c.dirperm,
         "fault": c.fault.as_ref().map(FaultSpec::describe),
     })
@@ -475,7 +522,7 @@ fn run_batch(sets: &[InputSet], tapes: &[Vec<u64>]) -> Stats {
                     for v in &tapes[i] {
                         sig = sig.rotate_left(11) ^ v.wrapping_mul(0x9e37_79b9_7f4a_7c15);
                     }
-                    let nontrivial = c.fault.is_some() || c.spelling != 0 || c.pre != 0 || c.output != 0 || sets[c.input].stage.is_some();
+                    let nontrivial = c.fault.is_some() || c.name_style != 0 || c.link_style != 0 || c.spelling != 0 || c.pre != 0 || c.output != 0 || sets[c.input].stage.is_some();
                     if nontrivial {
                         st.signatures.insert(sig);
                     }
@@ -571,7 +618,7 @@ fn build_tapes(sets: &[InputSet], tier: &str, seed: u64) -> (Vec<Vec<u64>>, Valu
                         if !thorough && (input as u64 + spelling + output + pre + *extra) % 3 != 0 {
                             continue;
                         }
-                        let c = Case { input, spelling, output, pre, extra: *extra, longflags: (spelling + output) % 2 == 1, entropy: 0, dirperm: if *extra == 2 { 7 } else { 0 }, fault: None };
+                        let c = Case { input, spelling, output, pre, extra: *extra, longflags: (spelling + output) % 2 == 1, entropy: 0, dirperm: if *extra == 2 { 7 } else { 0 }, fault: None, name_style: ((input as u64 + spelling) % 3) * u64::from((output + pre) % 2 == 0), link_style: ((spelling + pre + *extra) % 3) * u64::from((input as u64 + output) % 2 == 1) };
                         tapes.push(encode_case(&c));
                         n_cfg += 1;
                     }
@@ -583,20 +630,20 @@ fn build_tapes(sets: &[InputSet], tier: &str, seed: u64) -> (Vec<Vec<u64>>, Valu
     let idx_of = |name: &str| sets.iter().position(|s| s.name == name);
     let mut scen = Vec::new();
     if let Some(i) = idx_of("tempconverter") {
-        scen.push(Case { input: i, spelling: 2, output: 0, pre: 2, extra: 0, longflags: false, entropy: 0, dirperm: 0, fault: None });
+        scen.push(Case { input: i, spelling: 2, output: 0, pre: 2, extra: 0, longflags: false, entropy: 0, dirperm: 0, fault: None, name_style: 0, link_style: 0 });
     }
     if let Some(i) = idx_of("chain") {
-        scen.push(Case { input: i, spelling: 1, output: 2, pre: 1, extra: 1, longflags: true, entropy: 0, dirperm: 3, fault: None });
+        scen.push(Case { input: i, spelling: 1, output: 2, pre: 1, extra: 1, longflags: true, entropy: 0, dirperm: 3, fault: None, name_style: 1, link_style: 1 });
     }
     if thorough {
         if let Some(i) = idx_of("hello") {
-            scen.push(Case { input: i, spelling: 4, output: 3, pre: 0, extra: 0, longflags: false, entropy: 0, dirperm: 0, fault: None });
+            scen.push(Case { input: i, spelling: 4, output: 3, pre: 0, extra: 0, longflags: false, entropy: 0, dirperm: 0, fault: None, name_style: 0, link_style: 0 });
         }
         if let Some(i) = idx_of("malformed-sibling") {
-            scen.push(Case { input: i, spelling: 5, output: 1, pre: 2, extra: 0, longflags: false, entropy: 0, dirperm: 0, fault: None });
+            scen.push(Case { input: i, spelling: 5, output: 1, pre: 2, extra: 0, longflags: false, entropy: 0, dirperm: 0, fault: None, name_style: 0, link_style: 0 });
         }
         if let Some(i) = idx_of("orders") {
-            scen.push(Case { input: i, spelling: 1, output: 0, pre: 2, extra: 3, longflags: false, entropy: 0, dirperm: 5, fault: None });
+            scen.push(Case { input: i, spelling: 1, output: 0, pre: 2, extra: 3, longflags: false, entropy: 0, dirperm: 5, fault: None, name_style: 2, link_style: 2 });
         }
     }
     let mut enumerated = Vec::new();
@@ -637,7 +684,7 @@ fn build_tapes(sets: &[InputSet], tier: &str, seed: u64) -> (Vec<Vec<u64>>, Valu
         }
         tapes.push(encode_case(&c));
     }
-    (tapes, json!({"configuration_product_cases": n_cfg, "configuration_dimensions": {"input_sets": sets.iter().map(|s| s.name.clone()).collect::<Vec<_>>(), "spellings": SPELLINGS, "outputs": OUTPUTS, "preexisting": PRE, "extra_siblings": extras}, "per_call_index_fault_enumeration": enumerated, "seeded_cases": n_seeded, "configuration_product_complete": thorough}))
+    (tapes, json!({"configuration_product_cases": n_cfg, "configuration_dimensions": {"input_sets": sets.iter().map(|s| s.name.clone()).collect::<Vec<_>>(), "spellings": SPELLINGS, "outputs": OUTPUTS, "preexisting": PRE, "extra_siblings": extras, "name_styles": NAME_STYLES, "link_styles": LINK_STYLES, "name_and_link_style_in_product": "varied by a fixed rule across the product; all combinations occur in the seeded mixes"}, "per_call_index_fault_enumeration": enumerated, "seeded_cases": n_seeded, "configuration_product_complete": thorough}))
 }
 
 fn main() {
@@ -698,7 +745,7 @@ fn main() {
     std::env::remove_var("VERIF_WORKERS");
     let mism = u64::from(a.digest != b.digest);
     if mism != 0 {
-        report.harness_errors.push("determinism self-check failed: same tapes, different traces/outcomes".into());
+        report.soft_errors.push("determinism self-check failed: same tapes, different traces/outcomes".into());
     }
 
     // one violation per key: smallest tape, then shrink
